@@ -100,6 +100,9 @@ def gen_heading(rng, doc, level=None, force_servings=None):
         phrase = rng.choice(PHRASES)
         n = force_servings or rng.choice([1, 2, 4, 6, 12, 100])
         title = title + rng.choice([" ", "  "]) + phrase + rng.choice([" ", "  "]) + (str(n) if rng.random() < 0.9 else "0" + str(n))
+    elif rng.random() < 0.08:
+        # a count written in the digits of another script is not a serving count: ordinary title text
+        title = title + " " + rng.choice(PHRASES) + " " + rng.choice(["\uff14", "\u0664", "\u0967\u0968", "\uff11\uff12"])
     if level <= 2 and rng.random() < 0.25:
         lines = [title, ("=" if level == 1 else "-") * max(3, len(title))]
         # (wrapped inside the title words only: the serving phrase and its count stay on one line, which is what the differential
